@@ -4,6 +4,7 @@ import (
 	"fmt"
 	"go/types"
 	"regexp"
+	"sort"
 	"strconv"
 	"strings"
 
@@ -568,6 +569,119 @@ func substituteFlagParams(p *core.Program, helper, caller *ssa.Function, paths [
 			}
 		}
 		out[i] = np
+	}
+	return out, newAtoms
+}
+
+// substituteFlagResults rewrites decision paths of a caller that test a boolean result `@role(..)#k`
+// of a role helper handing back precomputed facts: when, on the helper's own decision paths, the
+// k-th result is a constant that is true exactly when one condition A over the helper's node
+// parameter holds (or exactly when it does not), the literal on the result is replaced by the
+// literal on A with the caller's argument put in. Paths that become contradictory are dropped.
+func substituteFlagResults(p *core.Program, helper *ssa.Function, role string, paths []core.DecisionPath, atoms map[string]bool) ([]core.DecisionPath, map[string]bool) {
+	orig := p.Original(helper)
+	if !core.RoleFlagResults[orig] {
+		return paths, atoms
+	}
+	inl := p.Inlined(orig)
+	T := fmt.Sprintf("$%d", paramIndexOfType(inl, "*html.Node"))
+	type sub struct {
+		atom string
+		same bool
+	}
+	subs := map[int]sub{}
+	for k := 1; k < orig.Signature.Results().Len(); k++ {
+		k := k
+		hp, _, err := core.EnumerateDecisions(p, inl, core.DecisionOpts{Outcome: func(in ssa.Instruction, c *core.Canon) (string, bool) {
+			if ret, ok := in.(*ssa.Return); ok && k < len(ret.Results) {
+				return c.Of(ret.Results[k]), true
+			}
+			return "", false
+		}})
+		if err != nil || len(hp) == 0 {
+			continue
+		}
+		// candidate atoms: decided on every path, with a value that determines the result
+		cand := map[string]int{} // atom -> +1 same, -1 inverted, 0 no
+		first := true
+		for _, pa := range hp {
+			if pa.Outcome != "true" && pa.Outcome != "false" {
+				cand = nil
+				break
+			}
+			res := pa.Outcome == "true"
+			here := map[string]int{}
+			for _, l := range pa.Lits {
+				if l.Val == res {
+					here[l.Atom] = 1
+				} else {
+					here[l.Atom] = -1
+				}
+			}
+			if first {
+				cand, first = here, false
+				continue
+			}
+			for a, pol := range cand {
+				if here[a] != pol {
+					delete(cand, a)
+				}
+			}
+		}
+		var names []string
+		for a := range cand {
+			names = append(names, a)
+		}
+		sort.Strings(names)
+		if len(names) == 1 {
+			subs[k] = sub{names[0], cand[names[0]] == 1}
+		}
+	}
+	if len(subs) == 0 {
+		return paths, atoms
+	}
+	re := regexp.MustCompile(`^@` + regexp.QuoteMeta(role) + `\((.*)\)#(\d+)$`)
+	rewrite := func(atom string) (string, bool, bool) {
+		m := re.FindStringSubmatch(atom)
+		if m == nil {
+			return atom, true, false
+		}
+		k, _ := strconv.Atoi(m[2])
+		s, ok := subs[k]
+		if !ok {
+			return atom, true, false
+		}
+		return strings.ReplaceAll(s.atom, T, m[1]), s.same, true
+	}
+	newAtoms := map[string]bool{}
+	for a := range atoms {
+		na, _, _ := rewrite(a)
+		newAtoms[na] = true
+	}
+	var out []core.DecisionPath
+	for _, pa := range paths {
+		np := pa
+		np.Lits = nil
+		val := map[string]bool{}
+		feasible := true
+		for _, l := range pa.Lits {
+			na, same, hit := rewrite(l.Atom)
+			nl := l
+			if hit {
+				nl = core.Lit{Atom: na, Val: l.Val == same}
+			}
+			if v, seen := val[nl.Atom]; seen {
+				if v != nl.Val {
+					feasible = false
+				}
+				continue
+			}
+			val[nl.Atom] = nl.Val
+			np.Lits = append(np.Lits, nl)
+		}
+		if feasible {
+			out = append(out, np)
+		}
 	}
 	return out, newAtoms
 }
